@@ -15,6 +15,31 @@ def make_jar(variant):
     comp = zipfile.ZIP_STORED if variant == "stored" else zipfile.ZIP_DEFLATED
     main = b"Manifest-Version: 1.0\r\nCreated-By: c05 harness\r\n\r\n"
     files = []
+    if variant.startswith("rand="):
+        R = rnd
+        eol = R.choice([b"\r\n", b"\r\n", b"\n"])
+        comp = R.choice([zipfile.ZIP_STORED, zipfile.ZIP_DEFLATED])
+        alpha = "abcXYZ019_-. $" + "éü€世"
+        seen = set()
+        for i in range(R.randint(1, 25)):
+            depth = R.randint(0, 3)
+            nm = "/".join("".join(R.choice(alpha) for _ in range(R.choice([1, 3, 8, 20, 40, 70]))).strip(" .") or "x" for _ in range(depth + 1))
+            if nm in seen or nm.upper().startswith("META-INF"):
+                continue
+            seen.add(nm)
+            files.append((nm, R.randbytes(R.choice([0, 1, 10, 1000, 70000]))))
+        main = b"Manifest-Version: 1.0" + eol + b"Created-By: c05 harness (random)" + eol + b"X-Long: " + b"v" * R.choice([1, 60, 61, 62, 63, 64, 130, 200]) + eol + eol
+        for nm, _ in files:
+            if R.random() < 0.3:
+                raw = b"Name: " + nm.encode()
+                # fold at 72 bytes the way the JDK writes it
+                folded, first = b"", True
+                while len(raw) > (72 if first else 71):
+                    cut = 72 if first else 71
+                    folded += (b"" if first else b" ") + raw[:cut] + eol
+                    raw, first = raw[cut:], False
+                folded += (b"" if first else b" ") + raw + eol
+                main += folded + b"X-Attr: " + str(R.random()).encode() + eol + eol
     if variant == "many":
         files = [("d%d/e%d/file%03d.txt" % (i % 7, i % 3, i), b"content %d\n" % i * (i % 50 + 1)) for i in range(300)]
     elif variant == "longnames":
@@ -38,6 +63,8 @@ def make_jar(variant):
         files = [("dir/", b""), ("dir/empty", b""), ("dir/sub/", b""), ("dir/sub/f", b"f"), ("META-INF/services/x.Y", b"impl\n"), ("META-INF/LICENSE", b"lic\n")]
     elif variant == "big":
         files = [("big/%d.bin" % i, _rnd(i, 700000)) for i in range(3)]
+    elif variant.startswith("rand="):
+        pass
     else:
         raise ValueError(variant)
     with zipfile.ZipFile(buf, "w", comp) as z:
@@ -87,6 +114,17 @@ def make_apk(variant):
 def make_pe(variant):
     fx = {"dll": "ClassLibrary1.dll", "exe": "WindowsFormsApplication1.exe"}
     kind, _, arg = variant.partition("=")
+    if kind == "rand":
+        R = random.Random(int(arg) * 7919 + 1)
+        plus = R.random() < 0.5
+        fa = R.choice([0x200, 0x200, 0x400, 0x1000])
+        n = R.randint(1, 6)
+        sizes = [fa * R.choice([0, 1, 1, 2, 3, 5, 8, 9]) for _ in range(n)]
+        if not any(sizes):
+            sizes[R.randrange(n)] = fa
+        machine = R.choice([0x8664, 0x200, 0xaa64]) if plus else R.choice([0x14c, 0x1c0, 0x184])
+        ov = R.choice([0, 0, 1, 2, 7, 8, 9, 15, 16, 17, R.randint(1, 5000)])
+        return ref.make_pe(plus=plus, sect_sizes=sizes, file_align=fa, machine=machine, overlay=R.randbytes(ov), hdr_gap=R.choice([0, 0, 1]), dos_stub=16 * R.randint(0, 6), seed=int(arg))
     if kind in ("dll-overlay", "exe-overlay"):
         base = open(os.path.join(PKGS, fx[kind.split("-")[0]]), "rb").read()
         return base + random.Random(int(arg)).randbytes(int(arg))
@@ -115,6 +153,12 @@ def make_pe(variant):
 def make_cab(variant):
     kw = {}
     nfiles, fsize = 3, 1000
+    if variant.startswith("rand="):
+        R = random.Random(int(variant[5:]) * 104729 + 3)
+        n = R.randint(1, 6)
+        files = [(b"f%d_%s.bin" % (i, bytes(R.choice(b"abcXYZ09-_ ") for _ in range(R.randint(0, 12)))), R.randbytes(R.choice([0, 1, 3, 4, 5, 100, 32767, 32768, 32769, R.randint(0, 70000)]))) for i in range(n)]
+        return ref.make_cab(files, nfolders=R.randint(1, min(n, 3)), set_id=R.randrange(65536), reserved=(R.getrandbits(32), R.getrandbits(32), R.getrandbits(32)),
+                            icab=R.choice([0, 0, 1, 7]), reserve=R.choice([None, None, None, b"\0" * 6144, b"\0" * 24]))
     for item in variant.split(","):
         k, _, v = item.partition("=")
         if k == "files":
@@ -138,6 +182,32 @@ def make_cab(variant):
 def make_msi(variant):
     R = random.Random(zlib.crc32(variant.encode()))
     rb = lambda n: R.randbytes(n)
+    if variant.startswith("rand="):
+        alpha = "ABab01_. -" + "䡀㽁䡁㹀㭁䅤䈯䠶䕙䓲" + "éĂȁ"
+
+        def names(k):
+            out, seen = [], set()
+            while len(out) < k:
+                nm = "".join(R.choice(alpha) for _ in range(R.choice([1, 2, 3, 5, 8, 16, 30, 31])))
+                if R.random() < 0.3 and out:
+                    nm = (R.choice(out) + nm)[:31]          # common prefixes
+                if nm.upper() in seen or nm.startswith("\x05"):
+                    continue
+                seen.add(nm.upper())
+                out.append(nm)
+            return out
+
+        def level(depth):
+            items = []
+            for nm in names(R.randint(1, 7 if depth == 0 else 4)):
+                if depth < 2 and R.random() < 0.25:
+                    items.append((nm, level(depth + 1), rb(16)))
+                else:
+                    items.append((nm, rb(R.choice([0, 1, 63, 64, 65, 500, 4095, 4096, 4097, R.randint(0, 12000)]))))
+            return items
+        # relic cannot add its (small) signature stream to a compound file that has no mini stream at all ("negative offset"; comdoc, C18):
+        # every generated file gets one small stream so that the refusal does not mask the digest checks
+        return ref.make_cfb(level(0) + [("~c05", rb(10))], seed=int(variant[5:]))
     if variant == "names":
         # names exercising the ordering rule: common prefixes, MSI-encoded (CJK range) names whose UTF-16LE byte order differs from the
         # code-unit order, mixed case, long (31 characters) names
@@ -158,6 +228,12 @@ def make_msi(variant):
 
 
 def make_text(variant):
+    if variant.startswith("rand="):
+        R = random.Random(int(variant[5:]) * 31 + 5)
+        words = ["alpha", "- dash", "-", "From x", "tab\there", "trail ", "trail\t", "", "üñï", "-----BEGIN PGP SIGNED MESSAGE-----", "x" * R.randint(0, 300)]
+        eol = R.choice(["\n", "\r\n"])
+        t = eol.join(R.choice(words) for _ in range(R.randint(0, 40)))
+        return (t + (eol if R.random() < 0.7 else "")).encode("utf-8")
     if variant == "crlf":
         return b"line one\r\nline two  \r\n\r\n- dash line\r\nFrom here\r\nlast line without newline"
     if variant == "dashes":
